@@ -529,6 +529,12 @@ func (rl *Shell) transposeWords() {
 		transposeWith, toTranspose = toTranspose, transposeWith
 	}
 
+	// Both words must have been found, one after the other.
+	if wbpos < 0 || wepos < wbpos || tbpos < wepos || tepos < tbpos || tepos > rl.line.Len() {
+		rl.cursor.Set(startPos)
+		return
+	}
+
 	// Assemble the newline
 	begin := string((*rl.line)[:wbpos])
 	newLine := append([]rune(begin), []rune(toTranspose)...)
